@@ -250,7 +250,12 @@ package collection
 //@   ensures [stored] has(c.data, key) && c.data[key] == value
 //@   ensures [touched] calls(c.lruCache.add, key) == 1
 //@   ensures [timer-new] !old(has(c.data, key)) ==> calls(c.timingWheel.SetTimer) == 1 && calls(MoveTimer) == 0 && unbox(arg(SetTimer, 1), string) == key && arg(SetTimer, 2) == value && arg(SetTimer, 3) == ret(AroundDuration)
-//@   ensures [timer-existing] old(has(c.data, key)) ==> calls(c.timingWheel.MoveTimer) == 1 && calls(SetTimer) == 0 && unbox(arg(MoveTimer, 1), string) == key && arg(MoveTimer, 2) == ret(AroundDuration)
+// a re-set is never a delete: the wheel runs a timer moved by less than one tick AT ONCE (moveTask), and the cache's
+// timer callback deletes the key - the value just stored would be gone at age 0, with no tick elapsed. A new key is
+// kept for at least one tick (setTask rounds up); so is a re-set one.
+//@   replay-for re-set-key-kept-for-at-least-one-tick collection_cache_reset_subtick
+//@   ensures [re-set-key-kept-for-at-least-one-tick] calls(MoveTimer) == 1 ==> arg(MoveTimer, 2) >= 1000000000
+//@   ensures [timer-existing] old(has(c.data, key)) ==> calls(c.timingWheel.MoveTimer) == 1 && calls(SetTimer) == 0 && unbox(arg(MoveTimer, 1), string) == key && arg(MoveTimer, 2) == max(ret(AroundDuration), 1000000000)
 //@   ensures [jitter-of-expire] calls(AroundDuration) == 1 && arg(AroundDuration, 1) == expire
 //@   ensures [others-kept] forallk(s, string, s != key ==> has(c.data, s) == old(has(c.data, s)))
 
